@@ -476,33 +476,18 @@ impl Decompressor {
             return Ok(ref_data.clone());
         }
 
-        let archive_version = ragc_common::AGC_FILE_MAJOR * 1000 + ragc_common::AGC_FILE_MINOR;
-        let ref_stream_name = stream_ref_name(archive_version, group_id);
-        let stream_id = self
-            .archive
-            .get_stream_id(&ref_stream_name)
-            .ok_or_else(|| anyhow!("Reference stream not found: {}", ref_stream_name))?;
+        // Raw groups (0..16) have no reference stream
+        if group_id < 16 {
+            let archive_version = ragc_common::AGC_FILE_MAJOR * 1000 + ragc_common::AGC_FILE_MINOR;
+            let ref_stream_name = stream_ref_name(archive_version, group_id);
+            return Err(anyhow!("Reference stream not found: {}", ref_stream_name));
+        }
 
-        let (mut data, metadata) = self.archive.get_part_by_id(stream_id, 0)?;
-        // Decompress if needed; metadata holds original length for packed format
-        let decompressed = if data.is_empty() {
-            Vec::new()
-        } else if data.last() == Some(&0) {
-            // Plain ZSTD stream with marker 0
-            data.pop();
-            decompress_segment_with_marker(&data, 0)?
-        } else {
-            // Tuple-packed with marker 1
-            let marker = data.pop().unwrap();
-            decompress_segment_with_marker(&data, marker)?
-        };
-
-        // Unpack 2-bit encoded reference to 1-byte bases if needed
-        // decompress_segment_with_marker returns bytes in the stored format for references
-        // Our helper already returns decompressed raw bytes for references
-        let reference = decompressed;
-        self.segment_cache.insert(group_id, reference.clone());
-        Ok(reference)
+        // Load the reference exactly as get_segment does (it honours the part metadata:
+        // 0 = stored raw, otherwise ZSTD + marker byte), so that the answer does not depend on
+        // whether an earlier query already cached this group's reference.
+        let desc = SegmentDesc::new(group_id, 0, false, 0);
+        self.get_segment(&desc)
     }
 
     /// Extract all contigs from a sample
